@@ -250,6 +250,42 @@ func init() {
 							}
 						}
 					}},
+				{Name: "huge-vertical-index", Serial: true, Bounds: engine.Bounds{InputDev: -1},
+					Rule: "IDs whose vertical index is far beyond the nominal range (the shift operations produce them: +-(2^53+3), +-(2^59+1), 2^62-1, -(2^62)) at h = 3, v in {20, 35} x d in 1..3: the zoom-out by d levels is floor(f / 2^d) exactly (the value does not fit a float64); zooming in by d and back out returns the ID; merging the 2^d vertical descendants at the ID's zooms returns the ID; non-trivial = distinct (f, v, d)",
+					Body: func(c *engine.Ctx) {
+						fsel := []int64{1<<53 + 3, -(1<<53 + 3), 1<<59 + 1, -(1<<59 + 1), 1<<62 - 1, -(1 << 62)}
+						f := fsel[c.In("f", len(fsel))]
+						v := []int64{20, 35}[c.In("v", 2)]
+						d := int64(1 + c.In("d", 3))
+						id := ref.Vox{H: 3, X: 5, Y: 2, V: v, F: f}
+						c.Nontrivial(fmt.Sprint(f, v, d))
+						c.Observe("%s %d", id.Ext(), d)
+						dd := map[string]any{"id": id.Ext(), "levels": d}
+						out, err := integrate.ChangeExtendedSpatialIdsZoom([]string{id.Ext()}, 3, v-d)
+						want := ref.Vox{H: 3, X: 5, Y: 2, V: v - d, F: f >> uint(d)}.Ext()
+						if err != nil || len(out) != 1 || out[0] != want {
+							dd["got"], dd["want"] = out, want
+							c.Violation("C09:huge-vertical-index:zoom-out-is-not-the-floor", dd)
+						}
+						if v+d <= 35 && f < (1<<62)>>uint(d) && f >= -((1<<62)>>uint(d)) {
+							fine, e1 := integrate.ChangeExtendedSpatialIdsZoom([]string{id.Ext()}, 3, v+d)
+							if e1 != nil || int64(len(fine)) != int64(1)<<uint(d) {
+								dd["fine"] = fine
+								c.Violation("C09:huge-vertical-index:zoom-in-wrong-count", dd)
+								return
+							}
+							back, e2 := integrate.ChangeExtendedSpatialIdsZoom(fine, 3, v)
+							if e2 != nil || len(back) != 1 || back[0] != id.Ext() {
+								dd["back"] = back
+								c.Violation("C09:zoom-in-then-out-does-not-return-the-id", dd)
+							}
+							merged, e3 := integrate.MergeExtendedSpatialIds(fine, 3, v)
+							if e3 != nil || len(merged) != 1 || merged[0] != id.Ext() {
+								dd["merged"] = merged
+								c.Violation("C09:merging-all-descendants-does-not-return-the-id", dd)
+							}
+						}
+					}},
 				{Name: "spatial-id-chain", ShardDepth: 1, Bounds: engine.Bounds{InputDev: -1},
 					Rule: "the single-zoom z/f/x/y entry points used one after the other on ONE caller-owned list (a window into a larger array with sentinels behind it): point x zoom z in 1..35 (quick: edge zooms) x step in 1..3: ids = GetSpatialIdsOnPoints(p,z); ChangeSpatialIdsZoom(ids, z-step) = GetSpatialIdsOnPoints(p, z-step), asked twice from the same list; zoom in by one level and back, and MergeSpatialIds of the children, return the ID; CheckSpatialIdsOverlap of the list's entry with its ancestor is true (inside the altitude range that check is documented for); the list is unchanged at the end; non-trivial = distinct (point, zoom, step) with negative altitude",
 					Body: func(c *engine.Ctx) {
